@@ -253,7 +253,8 @@ def gen_trees(rng, quick):
     trees = [[(None, 3, 5), (None, 2, 3), (None, 2, 3)], [(None, 1, 2), (None, 2, 3), (None, 2, 3)],
              [(None, 2, 4)], [(None, 0, 1)], [("threading", 2, 3), ("multiprocessing", 0, 1)],
              [("threading", 1, 2)], [("loky", 1, 2)], [("multiprocessing", 1, 2)], [("sequential", 3, 2)],
-             [(None, 2, 3), ("threading", 1, 2)], [("threading", 3, 5), ("threading", 1, 2), (None, 2, 2)]]
+             [(None, 2, 3), ("threading", 1, 2)], [("threading", 3, 5), ("threading", 1, 2), (None, 2, 2)],
+             [(None, 2, 3), (None, None, 3)], [("threading", 2, 3), (None, None, 3)]]
     trees += nested_guard_trees(rng, quick)
     for a in names:
         for b_ in names:
@@ -261,7 +262,7 @@ def gen_trees(rng, quick):
     d3 = [[(a,) + shape[0], (b_,) + shape[1], (c,) + shape[2]] for a in names for b_ in names for c in names]
     if quick:
         rng.shuffle(d3)
-        d3 = d3[:10]
+        d3 = d3[:6]
     return trees + d3
 
 
@@ -499,7 +500,8 @@ def search_failing(ctx):
     # real nested shapes x n_jobs in {-3,-2,-1,1,2,3,None} x explicit process backends below threads / daemonic workers,
     # judged by the oracle rules that need no model (high-water, pids, "no worker processes below a worker")
     trees = [[(None, 3, 5), (None, 2, 3), (None, 2, 3)], [(None, 2, 4)], [("threading", 2, 3), ("threading", 2, 3), (None, 2, 3)],
-             [("threading", 1, 2)], [("loky", 1, 2)], [("multiprocessing", 2, 4)]] + nested_guard_trees(ctx.rng, True, full=True)
+             [("threading", 1, 2)], [("loky", 1, 2)], [("multiprocessing", 2, 4)], [(None, 2, 3), (None, None, 3)],
+             [("threading", 2, 3), (None, None, 3)]] + nested_guard_trees(ctx.rng, True, full=True)
     import concurrent.futures as cf
     with cf.ThreadPoolExecutor(6) as ex:
         runs = list(ex.map(lambda it: run_tree(ctx, 7000 + it[0], it[1]), list(enumerate(trees))))
@@ -834,7 +836,7 @@ Definition showc (r : result Z) (pool : Z) : list Z :=
                 "LOKY_MAX_CPU_COUNT in {unset,0,1,3,1000}; real nested runs: all 25 two-level backend combinations, %s three-level "
                 "ones, default chains; loky REUSE sequences in one process (n_jobs a then b, b<a and b>a, same worker environment by "
                 "pinning inner_max_num_threads or by n_jobs > cpus/2), each call with more barrier-synchronised tasks than workers. non-trivial = n <= 0 or a guard active or a cpu constraint present or a nested tree; "
-                "distinct by canonical JSON" % ("{1,2,3,4,7,8,16,33,64}" if quick else "1..64", "10 sampled" if quick else "all 125"),
+                "distinct by canonical JSON" % ("{1,2,3,4,7,8,16,33,64}" if quick else "1..64", "6 sampled" if quick else "all 125"),
         "samples": [eff[len(eff) // 3], cpu[len(cpu) // 2] if cpu else None, {"mode": "nest", "levels": trees[0]}],
         "traces_validated_against_impl": n_model,
         "model_evaluations": n_model,
